@@ -31,6 +31,8 @@ struct Driver {
     pool: Vec<SMsg>,
     seen_emitted: usize,
     counts: std::collections::BTreeMap<String, u64>,
+    /// replica cut off from the others (partition) during the last part of the prefix
+    isolated: Option<usize>,
 }
 
 impl Driver {
@@ -239,7 +241,7 @@ impl Driver {
     }
 
     async fn random_step(&mut self) {
-        let real = self.real();
+        let real: Vec<usize> = self.real().into_iter().filter(|p| Some(*p) != self.isolated).collect();
         let pos = *real.choose(&mut self.rng).unwrap();
         let x = self.rng.gen_range(0..100);
         if x < 45 && !self.pool.is_empty() {
@@ -284,7 +286,7 @@ impl Driver {
             let n = self.pool.len();
             let recent: Vec<SMsg> = self.pool[n.saturating_sub(6)..].to_vec();
             for m in recent {
-                for p in self.real() {
+                for p in real.clone() {
                     self.deliver(p, m.clone()).await;
                 }
             }
@@ -292,10 +294,17 @@ impl Driver {
     }
 
     /// T5: synchronous suffix. Returns (ok, rounds_used, timer_rounds, heights).
-    async fn good_period(&mut self, max_timer_rounds: u32) -> (bool, u32, u32, Vec<usize>) {
+    async fn good_period(&mut self, max_timer_rounds: u32, lossy_first_expiry: bool) -> (bool, u32, u32, Vec<usize>) {
         // disarm pending crash injections: the suffix is fault-free for correct replicas
         for p in self.real() {
             self.w.nodes[&p].engine.inner().ctl.lock().unwrap().crash_at = None;
+        }
+        if lossy_first_expiry {
+            // the last thing that happens before the network heals: every replica's timer fires once and what it sends is
+            // LOST. Recovery must then come from retransmission on later expiries (timeout.rs:170-225).
+            for p in self.real() {
+                self.timer(p).await;
+            }
         }
         let h0 = self.real().iter().map(|p| self.w.nodes[p].engine.store_len()).max().unwrap_or(0);
         let target = h0 + 1;
@@ -368,30 +377,37 @@ impl Driver {
     }
 }
 
-async fn run_random(trace: &str, report: &str, seed: u64, steps: u64, cfg: &str, suffix: bool) {
+async fn run_random(trace: &str, report: &str, seed: u64, steps: u64, cfg: &str, suffix: u8) {
     let (weights, faulty) = config(cfg);
     let mut rep = Report::default();
     let w = World::new(&weights, &faulty, seed).await;
-    let mut d = Driver { w, rng: vcore::rng(seed), pool: vec![], seen_emitted: 0, counts: Default::default() };
+    let mut d = Driver { w, rng: vcore::rng(seed), pool: vec![], seen_emitted: 0, counts: Default::default(), isolated: None };
     // boot every node (view 0 times out immediately)
     for p in d.real() {
         d.boot(p).await;
     }
-    for _ in 0..steps {
+    for i in 0..steps {
+        if i == steps * 3 / 4 && seed % 2 == 0 {
+            // partition: one replica hears nothing during the last quarter of the prefix (it falls behind)
+            let real = d.real();
+            d.isolated = Some(real[(seed / 2) as usize % real.len()]);
+            d.count("partition");
+        }
         d.random_step().await;
     }
+    d.isolated = None;
     let views: Vec<u64> = d.real().iter().map(|p| d.w.snapshot(*p).view.0).collect();
     let heights_prefix = d.heights();
     let mut progress = json!(null);
-    if suffix {
+    if suffix > 0 {
         let n = d.w.c.n() as u32;
         // bound: L + 3 views with L = number of faulty-led views in any window of n views, doubled for slack
         let bound = 2 * (faulty.len() as u32 + 3) + n;
-        let (ok, rounds, timer_rounds, heights) = d.good_period(bound).await;
-        progress = json!({"ok": ok, "rounds": rounds, "timer_rounds": timer_rounds, "heights": heights, "bound_timer_rounds": bound});
+        let (ok, rounds, timer_rounds, heights) = d.good_period(bound, suffix == 2).await;
+        progress = json!({"ok": ok, "rounds": rounds, "timer_rounds": timer_rounds, "heights": heights, "bound_timer_rounds": bound, "first_expiry_lost": suffix == 2});
         if !ok {
             rep.fail("no_progress", format!("no new block at every correct node within {bound} timer rounds of the good period (heights {heights:?})"),
-                json!({"mode": "random", "seed": seed, "steps": steps, "config": cfg}));
+                json!({"mode": "random", "seed": seed, "steps": steps, "config": cfg, "suffix": suffix}));
         }
     }
     rep.evaluations = d.w.log.len() as u64;
@@ -414,7 +430,7 @@ fn main() {
     match a[0].as_str() {
         "random" => {
             let (trace, report, seed, steps, cfg) = (&a[1], &a[2], a[3].parse().unwrap(), a[4].parse().unwrap(), &a[5]);
-            let suffix = a.get(6).map(|s| s != "0").unwrap_or(true);
+            let suffix: u8 = a.get(6).map(|s| s.parse().unwrap_or(1)).unwrap_or(1);
             let r = catch(|| rt.block_on(run_random(trace, report, seed, steps, cfg, suffix)));
             if let Err(p) = r {
                 // a panic of the code under test (or of the harness): report it as data
@@ -428,6 +444,14 @@ fn main() {
             if let Err(p) = r {
                 let mut rep = Report::default();
                 rep.fail("panic", format!("panic during replay: {p}"), json!({"mode": "replay", "scenario": a[1]}));
+                rep.write(&a[3]);
+            }
+        }
+        "io" => {
+            let r = catch(|| rt.block_on(run_io(&a[1], &a[2], &a[3])));
+            if let Err(p) = r {
+                let mut rep = Report::default();
+                rep.fail("panic", format!("panic during ReplicaIO replay: {p}"), json!({"mode": "io", "behaviours": a[1]}));
                 rep.write(&a[3]);
             }
         }
@@ -784,7 +808,7 @@ async fn run_replay(scn_path: &str, trace: &str, report: &str) {
     let faulty: Vec<usize> = scn["config"]["faulty"].as_array().unwrap().iter().map(|x| x.as_u64().unwrap() as usize).collect();
     let mut rep = Report::default();
     let w = World::new(&weights, &faulty, scn["seed"].as_u64().unwrap_or(1)).await;
-    let mut d = Driver { w, rng: vcore::rng(1), pool: vec![], seen_emitted: 0, counts: Default::default() };
+    let mut d = Driver { w, rng: vcore::rng(1), pool: vec![], seen_emitted: 0, counts: Default::default(), isolated: None };
     for p in d.real() {
         d.boot(p).await;
     }
@@ -821,7 +845,7 @@ async fn run_replay(scn_path: &str, trace: &str, report: &str) {
     let mut progress = json!(null);
     if scn["suffix"].as_bool().unwrap_or(true) {
         let bound = 2 * (faulty.len() as u32 + 3) + d.w.c.n() as u32;
-        let (ok, rounds, timer_rounds, heights) = d.good_period(bound).await;
+        let (ok, rounds, timer_rounds, heights) = d.good_period(bound, scn["lossy_first_expiry"].as_bool().unwrap_or(false)).await;
         progress = json!({"ok": ok, "rounds": rounds, "timer_rounds": timer_rounds, "heights": heights});
         if !ok {
             rep.fail("no_progress", format!("no new block at every correct node within {bound} timer rounds of the good period (heights {heights:?})"),
@@ -838,5 +862,169 @@ async fn run_replay(scn_path: &str, trace: &str, report: &str) {
     rep.sample(json!({"scenario": scn_path, "applied": applied, "skipped": skipped, "progress": progress, "heights": d.heights()}));
     d.w.log.write(trace);
     d.w.shutdown().await;
+    rep.write(report);
+}
+
+// ================================================================================================
+// Replay of ReplicaIO.tla behaviours (T2 for C05): one real replica (validator 1 of six unit-weight validators); every
+// other validator is played by the harness with its key (declared faulty in the trace header), so any certificate is
+// constructible from real signatures.
+//   bft_drive io <behaviours.ndjson> <trace-out> <report-out>
+// ================================================================================================
+mod io_replay {
+    use serde_json::Value;
+    use vcore::bft::*;
+    use zksync_consensus_roles::validator::{
+        self,
+        v2::{ChonkyMsg, CommitQC, LeaderProposal, ProposalJustification, ReplicaCommit, ReplicaNewView, ReplicaTimeout},
+    };
+
+    pub const SELF: usize = 1;
+
+    fn vote_of(w: &mut World, v: &Value) -> Option<ReplicaCommit> {
+        if v["view"].as_i64()? < 0 {
+            return None;
+        }
+        let p = w.labels.payload(v["pay"].as_str()?);
+        let c = w.c.clone();
+        Some(Forge { c: &c }.vote(v["view"].as_u64()?, v["num"].as_u64()?, &p))
+    }
+    /// certificate signed by the other validators: all five (a quorum) or only four ("weak")
+    fn qc_of(w: &mut World, v: &Value, weak: bool) -> Option<CommitQC> {
+        let vote = vote_of(w, v)?;
+        let c = w.c.clone();
+        let f = Forge { c: &c };
+        let signers: Vec<usize> = if weak { vec![2, 3, 4, 5] } else { vec![2, 3, 4, 5, 6] };
+        let votes: Vec<_> = signers.iter().map(|p| f.commit(*p, vote.clone()).cast().unwrap()).collect();
+        f.commit_qc(&votes)
+    }
+    fn just_of(w: &mut World, j: &Value, weak: bool) -> Option<ProposalJustification> {
+        match j["k"].as_str()? {
+            "c" => qc_of(w, &j["cq"], weak).map(ProposalJustification::Commit),
+            "t" => {
+                let t = &j["tq"];
+                let view = t["view"].as_u64()?;
+                let c = w.c.clone();
+                let f = Forge { c: &c };
+                // three signers (= sub-quorum) report the high vote, one of them also the high certificate
+                let hv = if t["hvh"]["num"].as_i64()? >= 0 {
+                    let p = w.labels.payload(t["hvh"]["pay"].as_str()?);
+                    Some(f.vote(view, t["hvh"]["num"].as_u64()?, &p))
+                } else {
+                    None
+                };
+                let hq = qc_of(w, &t["hq"], false);
+                let signers: Vec<usize> = if weak { vec![2, 3, 4, 5] } else { vec![2, 3, 4, 5, 6] };
+                let mut votes = vec![];
+                for (i, s) in signers.iter().enumerate() {
+                    let m = ReplicaTimeout { view: c.view(view), high_vote: if i < 3 { hv.clone() } else { None }, high_qc: if i == 0 { hq.clone() } else { None } };
+                    votes.push(f.sign(*s, ChonkyMsg::ReplicaTimeout(m)).cast().unwrap());
+                }
+                Some(ProposalJustification::Timeout(f.timeout_qc(view, &votes)))
+            }
+            _ => None,
+        }
+    }
+
+    pub async fn act(w: &mut World, a: &Value) -> bool {
+        use zksync_consensus_crypto::ByteFmt;
+        match a["a"].as_str().unwrap_or("") {
+            "timer" => {
+                w.step(SELF, StepKind::Timer).await;
+                true
+            }
+            "crash" => {
+                w.crash(SELF).await;
+                w.step(SELF, StepKind::Boot).await;
+                true
+            }
+            "sync" => {
+                let pay = a["pay"].as_str().unwrap().to_string();
+                let num = a["num"].as_u64().unwrap();
+                let Some(qc) = qc_of(w, &serde_json::json!({"view": 0, "num": num, "pay": pay}), false) else { return false };
+                let b = validator::Block::FinalV2(validator::v2::FinalBlock { payload: w.labels.payload(&pay), justification: qc });
+                w.sync_block(SELF, b).await;
+                true
+            }
+            "recv" => {
+                let m = &a["m"];
+                let c = w.c.clone();
+                let f = Forge { c: &c };
+                let from = m["from"].as_u64().unwrap() as usize;
+                let inv = m["inv"].as_str().unwrap_or("none");
+                let weak = inv == "weak";
+                let inner = match m["t"].as_str().unwrap() {
+                    "commit" => vote_of(w, &m["vote"]).map(ChonkyMsg::ReplicaCommit),
+                    "timeout" => {
+                        let hv = vote_of(w, &m["hv"]);
+                        let hq = qc_of(w, &m["hq"], false);
+                        Some(ChonkyMsg::ReplicaTimeout(ReplicaTimeout { view: c.view(m["view"].as_u64().unwrap()), high_vote: hv, high_qc: hq }))
+                    }
+                    "newview" => just_of(w, &m["j"], weak).map(|j| ChonkyMsg::ReplicaNewView(ReplicaNewView { justification: j })),
+                    "proposal" => {
+                        let p = m["p"].as_str().unwrap();
+                        let payload = if p == "none" { None } else { Some(w.labels.payload(p)) };
+                        just_of(w, &m["j"], weak).map(|j| ChonkyMsg::LeaderProposal(LeaderProposal { proposal_payload: payload, justification: j }))
+                    }
+                    _ => None,
+                };
+                let Some(inner) = inner else { return false };
+                let mut msg = f.sign(from, inner);
+                if inv == "sig" {
+                    // signature of another message by the same key
+                    let p = w.labels.payload("zz");
+                    msg.sig = f.commit(from, f.vote(77, 0, &p)).sig;
+                    w.labels.forged_sig.insert(ByteFmt::encode(&msg.sig));
+                }
+                let r = w.step(SELF, StepKind::Recv(msg)).await;
+                if r.crashed {
+                    w.crash(SELF).await;
+                    w.step(SELF, StepKind::Boot).await;
+                }
+                r.accepted == a["ok"].as_bool().unwrap_or(r.accepted)
+            }
+            _ => false,
+        }
+    }
+}
+
+async fn run_io(beh_path: &str, trace: &str, report: &str) {
+    let mut rep = Report::default();
+    let mut all: Vec<serde_json::Value> = vec![];
+    let mut outcome_differs = 0u64;
+    let mut steps = 0u64;
+    for (i, beh) in read_cases(beh_path).into_iter().enumerate() {
+        let mut w = World::new(&[1, 1, 1, 1, 1, 1], &[2, 3, 4, 5, 6], 1).await;
+        w.step(io_replay::SELF, StepKind::Boot).await;
+        for a in beh.as_array().unwrap() {
+            steps += 1;
+            if !io_replay::act(&mut w, a).await {
+                outcome_differs += 1;
+            }
+        }
+        let evs = w.log.take();
+        for (k, e) in evs.into_iter().enumerate() {
+            if k == 0 {
+                if i == 0 {
+                    all.push(e);
+                } else {
+                    all.push(json!({"e": "reset"}));
+                }
+            } else {
+                all.push(e);
+            }
+        }
+        w.shutdown().await;
+        rep.distinct += 1;
+    }
+    rep.evaluations = steps;
+    rep.add("outcome_differs", outcome_differs);
+    rep.add("events", all.len() as u64);
+    rep.sample(json!({"behaviours": rep.distinct, "steps": steps}));
+    let log = vcore::log::EventLog::new();
+    for e in all {
+        log.emit(e);
+    }
+    log.write(trace);
     rep.write(report);
 }
